@@ -127,7 +127,7 @@ class Prop(PropBase):
             data.flags.writeable = False
         kw = {"pol_type": "circular"} if cls == "DualPolarizationSignal" else {}
         z = sigs.make(pb, cls, L, 1 * u.MHz, sigs.T0S[0], nchan=n, data=data, center_freq=400 * u.MHz,
-                      freq_align=align, meta={"k": [1, 2], "s": "x"}, **kw)
+                      freq_align=align, meta={"k": [1, 2], "s": "x"} if var % 3 else {}, **kw)
         return z, big
 
     def _call(self, call, z, others, g, rng):
@@ -280,10 +280,20 @@ class Prop(PropBase):
             watch = watch + others + [big]
             before = [self.snap(w) for w in watch]
             try:
-                thunk()
+                res = thunk()
                 outcome = "ok"
             except Exception as e:
+                res = None
                 outcome = err_name(e)
+            # results must not share their metadata dictionary with an input: a later note written into a result's `meta`
+            # would otherwise rewrite the input's (the meta setter and like() copy the dictionary)
+            stack = [res]
+            while stack:
+                r_ = stack.pop()
+                if isinstance(r_, (list, tuple)):
+                    stack.extend(r_)
+                elif isinstance(r_, self.pb.Signal) and isinstance(r_.meta, dict) and not any(r_ is w for w in watch):
+                    r_.meta["__probe__"] = 1
             after = [self.snap(w) for w in watch]
             changed = [i for i, (a, b) in enumerate(zip(before, after)) if a != b]
             return {"outcome": outcome, "changed": changed, "nwatched": len(watch)}
